@@ -48,6 +48,21 @@ CHECKS = {
         "level_note": "Single goroutine drives both directions, so the operation order is the history; cut offsets are sampled, not enumerated, in the quick tier.",
         "assumptions": ["zero-length records are generated only for application data (RFC 8446 5.1 forbids them for other types)"],
     },
+    "C08": {
+        "stages": [
+            rapid_stage("C08", 1500, 30000),
+            {"name": "corpus", "run": "^FuzzConnStream$", "shards": {"quick": 1, "thorough": 1}, "timeout": {"quick": 300, "thorough": 600}},
+            {"name": "retained", "run": "^TestC08Retained$", "checks": {"quick": 15, "thorough": 100}, "shards": {"quick": 1, "thorough": 4}, "timeout": {"quick": 300, "thorough": 1200}},
+            {"name": "stall", "run": "^TestC08Stall$", "checks": {"quick": 6, "thorough": 40}, "shards": {"quick": 2, "thorough": 16}, "timeout": {"quick": 300, "thorough": 2400}},
+            {"name": "fuzz", "gofuzz": "^FuzzConnStream$", "fuzztime": {"thorough": "240s", "quick": "20s"}, "tiers": ["thorough"], "timeout": {"thorough": 900}},
+        ],
+        "crash_is_violation": True,
+        "design_ref": "DESIGN.md 4 C08",
+        "technique": "structure-aware property-based fuzzing (rapid) incl. re-sealed mutated inner hellos, native coverage-guided go fuzzing (thorough), synctest stall sweep over every byte offset",
+        "level_text": "Grammar-based mutation of outer and (re-sealed) inner hellos and of both record streams with a no-panic / progress / allocation-bound oracle; the saved fuzz corpus is replayed in the quick tier and a coverage-guided campaign runs in the thorough tier; the stall sweep enumerates every stall offset of each generated first record in virtual time.",
+        "level_note": "Allocation is measured with runtime.MemStats around each call (single goroutine); retained memory by heap-after-GC at the midpoint and end of long streams. Native fuzzing cannot be pinned to VERIF_SEED.",
+        "assumptions": ["a caller stops writing after Write returned an error", "1 MiB per call = 64 maximum records is the 'small multiple'"],
+    },
     "C09": {
         "stages": [rapid_stage("C09", 800, 10000)],
         "design_ref": "DESIGN.md 4 C09",
